@@ -62,7 +62,7 @@ Definition add_input (i : input) (p : list stmt) : list stmt :=
   match p with StNode d ins :: r => StNode d (ins ++ [i]) :: r | _ => p end.
 
 Definition norm_out (kind out : Z) : Z :=
-  if kind =? 5 then 0
+  if (kind =? 5) || (kind =? 9) then 0   (* 9: a sink that declares recordable state: still output-less, never interned *)
   else if (kind =? 3) || (kind =? 4) then (if out =? 2 then 2 else 1)
   else if out =? 0 then 0 else if out =? 2 then 2 else 1.
 
@@ -70,11 +70,11 @@ Definition norm_out (kind out : Z) : Z :=
 Definition decode_line (p : list stmt) (l : line) : list stmt :=
   match l with
   | 2 :: _ :: kind :: def :: uniq :: out :: has_sc :: nsc :: rest =>
-      let special := (kind =? 3) || (kind =? 4) || (kind =? 5) || (kind =? 6) || (kind =? 7) || (kind =? 8) in
+      let special := (kind =? 3) || (kind =? 4) || (kind =? 5) || (kind =? 6) || (kind =? 7) || (kind =? 8) || (kind =? 9) in
       (* kinds 6, 7: nested_<SinkAndOutG> / try_except_<SinkG> wrapper nodes (deferred-builder add_node): one
          definition each, no scalars, an output - so they are interned like any value node *)
       StNode {| nd_def := if kind =? 4 then 100%nat else if kind =? 5 then 101%nat
-                          else if kind =? 6 then 102%nat else if kind =? 7 then 103%nat else if kind =? 8 then 104%nat
+                          else if kind =? 6 then 102%nat else if kind =? 7 then 103%nat else if kind =? 8 then 104%nat else if kind =? 9 then 105%nat
                           else if (def <? 0) || (7 <? def) then 7%nat else zn def;
                 nd_sch := [norm_out kind out];
                 nd_scal := if special then None else if has_sc =? 0 then None else Some (firstn (zn nsc) rest);
